@@ -82,7 +82,7 @@ impl Mean for DiscreteUniform {
     type MeanType = f64;
     /// Calculates the mean, which for a Uniform(a, b) distribution is given by `(a + b) / 2`.
     fn mean(&self) -> f64 {
-        ((self.lower + self.upper) / 2) as f64
+        (self.lower + self.upper) as f64 / 2.
     }
 }
 
